@@ -225,11 +225,143 @@ Fixpoint ndp_options (fuel : nat) (b : slice) (i : nat) : res value :=
         b1 <- idx x 1 ;;
         if ((t =? 1) || (t =? 2)) && negb (b1 =? 1) then Ok VE else
         if (t =? 3) && negb (b1 =? 4) then Ok VE else
+        b2 <- idx x 2 ;;
+        if (t =? 3) && (128 <? b2) then Ok VE else      (* repair cb8b5b9: prefix length above 128 is an error *)
         ndp_options f b (i + l)
   end.
+(* ---- the decoded NewOptions value.  [ndp_options] above establishes that every access of the decoders stays
+   inside p[k:len]; the field values are therefore computed on that byte list (x = the bytes of one option,
+   8*x[1] of them, at least 8).  One function per unmarshal, mirroring the code after the repairs 8afc7d0
+   (MTU at 4..8), ade5692 (route prefix masked), c4022d7 (raw option length), cb8b5b9, 3a9dc1a, 0b179fd. ---- *)
+Definition ob (x : bytes) (i : nat) : N := nth i x 0.
+Definition ob32 (x : bytes) (i : nat) : N := be32 (ob x i) (ob x (i + 1)) (ob x (i + 2)) (ob x (i + 3)).
+(* net.IP(addr).Mask(net.CIDRMask(pl, 128)) on 16 bytes *)
+Definition mask_byte (pl : nat) (i : nat) (b : N) : N :=
+  if Nat.leb (8 * (i + 1)) pl then b
+  else if Nat.leb pl (8 * i) then 0
+  else N.land b (256 - 2 ^ N.of_nat (8 - (pl - 8 * i))).
+Fixpoint mask_from (pl : nat) (i : nat) (l : bytes) : bytes :=
+  match l with [] => [] | b :: r => mask_byte pl i b :: mask_from pl (S i) r end.
+Definition mask16 (pl : nat) (l : bytes) : bytes := mask_from pl 0 l.
+(* copy(prefix16, src): src padded with zeros to 16 bytes *)
+Definition pad16 (l : bytes) : bytes := firstn 16 (l ++ repeat 0 16)%list.
+
+Record ndp_st := mkSt {
+  st_mtu : N;
+  st_prefixes : list value;           (* in order of appearance *)
+  st_rdnss_lt : N; st_servers : list bytes;
+  st_slla : bytes; st_tlla : bytes;
+  st_dnssl_lt : N; st_domains : list bytes;
+  st_route : N * N * N * bytes }.     (* prefix length, preference, lifetime, prefix *)
+Definition st0 : ndp_st := mkSt 0 [] 0 [] [] [] 0 [] (0, 0, 0, []).
+
+(* DNSSL (RawOption copy V = x[2:]): label walk from i = 6; None = errDNSSLBadDomains *)
+Definition is_ascii (l : bytes) : bool := forallb (fun c => c <? 128) l.
+Definition has_dot_or_space (l : bytes) : bool := existsb (fun c => (c =? 46) || (c =? 32)) l.
+Fixpoint join_dot (ls : list bytes) : bytes :=
+  match ls with [] => [] | [a] => a | a :: r => (a ++ 46 :: join_dot r)%list end.
+Fixpoint dnssl_walk (fuel : nat) (V : bytes) (i : nat) (labels : list bytes) (domains : list bytes) : option (list bytes) :=
+  match fuel with
+  | O => None
+  | S f =>
+      let rem := (List.length V - i)%nat in
+      if Nat.ltb rem 2 then None else
+      let length := N.to_nat (nth i V 0) in
+      if Nat.leb (rem - 1) length then None else
+      if Nat.eqb length 0 then Some domains else
+      let label := sub V (i + 1) length in
+      if negb (is_ascii label) then None else
+      if has_dot_or_space label then None else
+      let labels' := (labels ++ [label])%list in
+      let i' := (i + 1 + length)%nat in
+      if nth i' V 0 =? 0 then
+        let domains' := (domains ++ [join_dot labels'])%list in
+        let i'' := S i' in
+        let rem' := (List.length V - i'')%nat in
+        if Nat.eqb rem' 0 || (Nat.eqb rem' 1 && (nth i'' V 0 =? 0)) then Some domains'
+        else dnssl_walk f V i'' [] domains'
+      else dnssl_walk f V i' labels' domains
+  end.
+
+(* one option; None = newParseOptions returns an error for the whole block *)
+Definition ndp_apply (x : bytes) (st : ndp_st) : option ndp_st :=
+  let t := ob x 0 in let l8 := ob x 1 in
+  if (t =? 1) || (t =? 2) then
+    if negb (l8 =? 1) then None else
+    let mac := sub x 2 6 in
+    Some (if t =? 1 then mkSt (st_mtu st) (st_prefixes st) (st_rdnss_lt st) (st_servers st) mac (st_tlla st) (st_dnssl_lt st) (st_domains st) (st_route st)
+          else mkSt (st_mtu st) (st_prefixes st) (st_rdnss_lt st) (st_servers st) (st_slla st) mac (st_dnssl_lt st) (st_domains st) (st_route st))
+  else if t =? 5 then
+    if negb (l8 =? 1) then Some st else
+    Some (mkSt (ob32 x 4) (st_prefixes st) (st_rdnss_lt st) (st_servers st) (st_slla st) (st_tlla st) (st_dnssl_lt st) (st_domains st) (st_route st))
+  else if t =? 3 then
+    if negb (l8 =? 4) then None else
+    if 128 <? ob x 2 then None else
+    let pl := ob x 2 in
+    let p := VL [VN pl; VB (negb (N.land (ob x 3) 128 =? 0)); VB (negb (N.land (ob x 3) 64 =? 0));
+                 VN (ob32 x 4); VN (ob32 x 8); VX (mask16 (N.to_nat pl) (sub x 16 16))] in
+    Some (mkSt (st_mtu st) (st_prefixes st ++ [p])%list (st_rdnss_lt st) (st_servers st) (st_slla st) (st_tlla st) (st_dnssl_lt st) (st_domains st) (st_route st))
+  else if t =? 24 then
+    let pl := ob x 2 in
+    let okl := if pl =? 0 then (1 <=? l8) && (l8 <=? 3)
+               else if pl <? 65 then (l8 =? 2) || (l8 =? 3)
+               else if pl <? 129 then l8 =? 3 else false in
+    if negb okl then Some st else
+    let prf := N.shiftr (N.land (ob x 3) 24) 3 in
+    if prf =? 2 then Some st else
+    let prefix := mask16 (N.to_nat pl) (pad16 (sub x 8 ((N.to_nat pl + 7) / 8))) in
+    Some (mkSt (st_mtu st) (st_prefixes st) (st_rdnss_lt st) (st_servers st) (st_slla st) (st_tlla st) (st_dnssl_lt st) (st_domains st)
+               (pl, prf, ob32 x 4, prefix))
+  else if t =? 25 then
+    let dividend := (l8 - 1) * 8 in
+    if negb (dividend mod 16 =? 0) then Some st else
+    let count := N.to_nat (dividend / 16) in
+    if Nat.eqb count 0 then Some st else
+    let servers := map (fun i => sub x (8 + 16 * i) 16) (seq 0 count) in
+    Some (mkSt (st_mtu st) (st_prefixes st) (ob32 x 4) (st_servers st ++ servers)%list (st_slla st) (st_tlla st) (st_dnssl_lt st) (st_domains st) (st_route st))
+  else if t =? 31 then
+    let V := skipn 2 x in
+    match dnssl_walk (S (List.length V)) V 6 [] [] with
+    | None => Some st
+    | Some [] => Some st
+    | Some ds => Some (mkSt (st_mtu st) (st_prefixes st) (st_rdnss_lt st) (st_servers st) (st_slla st) (st_tlla st) (ob32 x 4) ds (st_route st))
+    end
+  else Some st.
+
+Fixpoint ndp_decode (fuel : nat) (b : bytes) (st : ndp_st) : option ndp_st :=
+  match fuel with
+  | O => None
+  | S f =>
+      match b with
+      | [] => Some st
+      | [_] => None
+      | _ :: l8 :: _ =>
+          let l := (N.to_nat l8 * 8)%nat in
+          if Nat.eqb l 0 then None else
+          if Nat.ltb (List.length b) l then None else
+          match ndp_apply (firstn l b) st with
+          | None => None
+          | Some st' => ndp_decode f (skipn l b) st'
+          end
+      end
+  end.
+
+(* the observed projection of NewOptions: a copied byte string that is empty shows as nil *)
+Definition vx (l : bytes) : value := match l with [] => VNil | _ => VX l end.
+Definition ndp_show (st : ndp_st) : value :=
+  VL [VN (st_mtu st); VL (st_prefixes st);
+      VL [VN (st_rdnss_lt st); VL (map vx (st_servers st))];
+      vx (st_slla st); vx (st_tlla st);
+      VL [VN (st_dnssl_lt st); VL (map vx (st_domains st))];
+      (let '(pl, prf, lt, pfx) := st_route st in VL [VN pl; VN prf; VN lt; vx pfx])].
+Definition ndp_value (b : bytes) : value :=
+  match ndp_decode (S (List.length b)) b st0 with Some st => ndp_show st | None => VE end.
+
 (* if len(p) <= k { return NewOptions{}, nil }; return newParseOptions(p[k:]) *)
 Definition ndp_options_at (k : nat) : getter := fun p =>
-  if Nat.leb (len p) k then Ok VU else b <- slfrom p k ;; ndp_options (S (len b)) b 0.
+  if Nat.leb (len p) k then Ok (ndp_show st0) else
+  b <- slfrom p k ;; r <- ndp_options (S (len b)) b 0 ;;
+  Ok (match r with VE => VE | _ => ndp_value (firstn (len b) (arr b)) end).
 Definition RS_Options : getter := ndp_options_at 8.    (* repaired: was 24 *)
 Definition RA_Options : getter := ndp_options_at 16.
 
